@@ -411,7 +411,7 @@ def remove_models_from_repositories(models, models_to_be_removed):
     """
     assert isinstance(models, list)
     for model in models:
-        if hasattr(model._tx_metamodel, "_tx_model_repository"):
+        if hasattr(getattr(model, "_tx_metamodel", None), "_tx_model_repository"):
             model._tx_metamodel._tx_model_repository.remove_models(models_to_be_removed)
         if hasattr(model, "_tx_model_repository"):
             model._tx_model_repository.remove_models(models_to_be_removed)
